@@ -49,7 +49,7 @@ def main():
         'date': time.strftime('%Y-%m-%d'),
     }
 
-    dst = os.path.join(V, 'seeded', name)
+    dst = os.path.join(V, 'seeded', os.environ.get('CAMPAIGN_PREFIX', '') + name)
     os.makedirs(dst, exist_ok=True)
 
     for f in ('patch.diff', 'demo.py'):
